@@ -253,6 +253,147 @@ def c05_constants(srcdir):
     return C
 
 
+def _func_body(text, name, fname):
+    """text of the body { ... } of the function definition `name(` (brace matched)."""
+    m = re.search(r'\n' + re.escape(name) + r'\s*\([^)]*\)\s*(?:/\*.*?\*/\s*)*\{', text, flags=re.S)
+    if not m:
+        raise TranslatorError('translator: anchor function %s not found in %s' % (name, fname))
+    i = m.end()
+    depth = 1
+    while i < len(text) and depth:
+        if text[i] == '{':
+            depth += 1
+        elif text[i] == '}':
+            depth -= 1
+        i += 1
+    if depth:
+        raise TranslatorError('translator: unbalanced braces in %s of %s' % (name, fname))
+    return text[m.end():i - 1]
+
+
+def _block_after(text, start_pat, what, fname):
+    """(body, rest): the brace-matched block opened by the regex start_pat (which must end in '{')."""
+    m = re.search(start_pat, text, flags=re.S)
+    if not m:
+        raise TranslatorError('translator: anchor %s not found in %s' % (what, fname))
+    i = m.end()
+    depth = 1
+    while i < len(text) and depth:
+        if text[i] == '{':
+            depth += 1
+        elif text[i] == '}':
+            depth -= 1
+        i += 1
+    return text[m.end():i - 1], text[i:]
+
+
+def c11_constants(srcdir):
+    """C11: the handshake's test patterns and decision structure (client.c), the server's codec
+    numbering and probe pattern (iodined.c).  Lists of pairs are emitted flattened."""
+    C = {}
+    T = {'T_NULL': 10, 'T_TXT': 16, 'T_SRV': 33, 'T_MX': 15, 'T_CNAME': 5, 'T_A': 1,
+         'T_PRIVATE': find_define_int(read(srcdir, 'common.h'), 'T_PRIVATE', 'common.h')}
+    ENC = {'base32_ops': 0, 'base64_ops': 1, 'base64u_ops': 2, 'base128_ops': 3}
+    cl = strip_comments(read(srcdir, 'client.c'))
+    lit = r'((?:\s*"(?:[^"\\]|\\.)*")+)'
+    up = _func_body(cl, 'handshake_upenc_autodetect', 'client.c')
+    pats = {}
+    for m in re.finditer(r'const\s+char\s*\*\s*(pat\w+)\s*=' + lit + r'\s*;', up):
+        pats[m.group(1)] = parse_c_string_literals(m.group(2))
+    loop, rest = _block_after(up, r'while\s*\(\s*1\s*\)\s*\{', 'handshake_upenc_autodetect while(1) loop', 'client.c')
+    # the chain: each test is  res = handshake_upenctest(dns_fd, P); if (res < 0) return 0; else if (res == 0) break;
+    chain = re.findall(r'res\s*=\s*handshake_upenctest\s*\(\s*dns_fd\s*,\s*(\w+)\s*\)\s*;\s*if\s*\(\s*res\s*<\s*0\s*\)\s*\{?\s*return\s+0\s*;\s*\}?'
+                       r'\s*else\s+if\s*\(\s*res\s*==\s*0\s*\)\s*\{?\s*break\s*;\s*\}?', loop)
+    if len(chain) != len(re.findall(r'handshake_upenctest\s*\(', loop)) or not chain:
+        raise TranslatorError('translator: handshake_upenc_autodetect loop is not a chain of "res<0: return 0; res==0: break" tests')
+    mret = re.search(r'\breturn\s+(\d+)\s*;\s*$', loop.strip())
+    if not mret:
+        raise TranslatorError('translator: anchor "return N;" at the end of the Base128 chain not found in client.c')
+    alts = re.findall(r'res\s*=\s*handshake_upenctest\s*\(\s*dns_fd\s*,\s*(\w+)\s*\)\s*;\s*if\s*\(\s*res\s*<\s*0\s*\)\s*\{\s*return\s+0\s*;\s*\}'
+                      r'\s*else\s+if\s*\(\s*res\s*>\s*0\s*\)\s*\{\s*return\s+(\d+)\s*;\s*\}', rest)
+    if len(alts) != len(re.findall(r'handshake_upenctest\s*\(', rest)) or not alts:
+        raise TranslatorError('translator: the tests after the Base128 chain are not of the form "res<0: return 0; res>0: return N"')
+    if not re.search(r'\breturn\s+0\s*;\s*$', rest.strip()):
+        raise TranslatorError('translator: handshake_upenc_autodetect does not end in "return 0;"')
+    for p in chain + [a for a, _ in alts]:
+        if p not in pats:
+            raise TranslatorError('translator: test pattern %s is not a string literal of handshake_upenc_autodetect' % p)
+    C['UPENC_CHAIN_N'] = len(chain)
+    for i, p in enumerate(chain):
+        C['upenc_chain_%d' % i] = pats[p]
+    C['upenc_chain'] = 'LISTREF ' + ' '.join('src_upenc_chain_%d' % i for i in range(len(chain)))
+    C['UPENC_CHAIN_RET'] = int(mret.group(1))
+    C['UPENC_ALT_N'] = len(alts)
+    for i, (p, r) in enumerate(alts):
+        C['upenc_alt_%d' % i] = pats[p]
+    C['upenc_alt'] = 'LISTREF ' + ' '.join('src_upenc_alt_%d' % i for i in range(len(alts)))
+    C['upenc_alt_ret'] = [int(r) for _, r in alts]
+    # client_handshake: result of the autodetect -> argument of handshake_switch_codec
+    hs = _func_body(cl, 'client_handshake', 'client.c')
+    sw = re.findall(r'upcodec\s*==\s*(\d+)\s*\)\s*\{\s*handshake_switch_codec\s*\(\s*dns_fd\s*,\s*(\d+)\s*\)', hs)
+    if not sw:
+        raise TranslatorError('translator: anchor "upcodec == N) { handshake_switch_codec(dns_fd, B)" not found in client.c')
+    C['upcodec_res'] = [int(a) for a, _ in sw]
+    C['upcodec_bits'] = [int(b) for _, b in sw]
+    sc = _func_body(cl, 'handshake_switch_codec', 'client.c')
+    cb = re.findall(r'bits\s*==\s*(\d+)\s*\)\s*tempenc\s*=\s*&\s*(\w+)\s*;', sc)
+    if not cb or any(e not in ENC for _, e in cb):
+        raise TranslatorError('translator: anchor "bits == B) tempenc = &<codec>_ops" not found in client.c')
+    C['client_bits'] = [int(b) for b, _ in cb]
+    C['client_bits_codec'] = [ENC[e] for _, e in cb]
+    # downstream autodetect: order of the letters tried
+    dn = _func_body(cl, 'handshake_downenc_autodetect', 'client.c')
+    C['downenc_order'] = [ord(c) for c in re.findall(r"handshake_downenctest\s*\(\s*dns_fd\s*,\s*'(.)'\s*\)", dn)]
+    nc = _func_body(cl, 'handshake_qtype_numcvt', 'client.c')
+    order = re.findall(r'case\s+(\d+)\s*:\s*return\s+(T_\w+)\s*;', nc)
+    if [int(a) for a, _ in order] != list(range(len(order))) or any(t not in T for _, t in order):
+        raise TranslatorError('translator: handshake_qtype_numcvt is not "case 0..n-1: return T_x"')
+    C['qtype_order'] = [T[t] for _, t in order]
+    qa = _func_body(cl, 'handshake_qtype_autodetect', 'client.c')
+    C['QTYPE_TIMEOUT_MAX'] = anchored_int(qa, r'for\s*\(\s*timeout\s*=\s*1\s*;\s*running\s*&&\s*timeout\s*<=\s*(\d+)\s*;', 'qtype autodetect timeout bound', 'client.c')
+    # fragment size probing
+    ap = _func_body(cl, 'handshake_autoprobe_fragsize', 'client.c')
+    C['PROBE_START'] = anchored_int(ap, r'int\s+proposed_fragsize\s*=\s*(\d+)\s*;', 'autoprobe start size', 'client.c')
+    C['PROBE_RANGE'] = anchored_int(ap, r'int\s+range\s*=\s*(\d+)\s*;', 'autoprobe start range', 'client.c')
+    C['PROBE_RANGE_MIN'] = anchored_int(ap, r'range\s*>\s*0\s*&&\s*\(\s*range\s*>=\s*(\d+)\s*\|\|', 'autoprobe early-stop range', 'client.c')
+    C['PROBE_ENOUGH'] = anchored_int(ap, r'\|\|\s*max_fragsize\s*<\s*(\d+)\s*\)\s*\)', 'autoprobe early-stop size', 'client.c')
+    C['PROBE_TRIES'] = anchored_int(ap, r'for\s*\(\s*i\s*=\s*0\s*;\s*running\s*&&\s*i\s*<\s*(\d+)\s*;', 'autoprobe tries', 'client.c')
+    C['PROBE_MIN_OK'] = anchored_int(ap, r'if\s*\(\s*max_fragsize\s*<=\s*(\d+)\s*\)', 'autoprobe minimum accepted', 'client.c')
+    C['PROBE_HDR'] = anchored_int(ap, r'return\s+max_fragsize\s*-\s*(\d+)\s*;', 'autoprobe header allowance', 'client.c')
+    m = re.search(r'range\s*>>=\s*(\d+)\s*;\s*if\s*\(\s*max_fragsize\s*==\s*proposed_fragsize\s*\)\s*\{\s*proposed_fragsize\s*([+-])=\s*range\s*;\s*\}'
+                  r'\s*else\s*\{.*?proposed_fragsize\s*([+-])=\s*range\s*;\s*\}', ap, flags=re.S)
+    if not m:
+        raise TranslatorError('translator: anchor autoprobe step (range >>= k; == : +=/-= range; else +=/-= range) not found in client.c')
+    C['PROBE_SHIFT'] = int(m.group(1))
+    C['PROBE_OK_UP'] = 1 if m.group(2) == '+' else 0
+    C['PROBE_FAIL_UP'] = 1 if m.group(3) == '+' else 0
+    fc = _func_body(cl, 'fragsize_check', 'client.c')
+    C['PROBE_BYTE2'] = anchored_int(fc, r'in\s*\[\s*2\s*\]\s*&\s*0xff\s*\)\s*!=\s*(\d+)', 'fragsize_check byte 2', 'client.c')
+    C['PROBE_STEP'] = anchored_int(fc, r'for\s*\(\s*i\s*=\s*3\s*;\s*i\s*<\s*read\s*;\s*i\+\+\s*,\s*v\s*=\s*\(\s*v\s*\+\s*(\d+)\s*\)\s*&\s*0xff\s*\)\s*if\s*\(\s*\(\s*in\s*\[\s*i\s*\]\s*&\s*0xff\s*\)\s*!=\s*v\s*\)',
+                                   'fragsize_check pattern loop', 'client.c')
+    m = re.search(r'if\s*\(\s*okay\s*\)\s*\{.*?\}\s*else\s*\{(.*)\}', fc, flags=re.S)
+    if not m:
+        raise TranslatorError('translator: anchor fragsize_check "if (okay) {...} else {...}" not found in client.c')
+    C['PROBE_CORRUPT_FATAL'] = 1 if re.search(r'\*\s*max_fragsize\s*=\s*-\s*1\s*;', m.group(1)) else 0
+    sv = strip_comments(read(srcdir, 'iodined.c'))
+    C['SRV_PROBE_BYTE2'] = anchored_int(sv, r'buf\s*\[\s*2\s*\]\s*=\s*(\d+)\s*;', 'server probe byte 2', 'iodined.c')
+    C['SRV_PROBE_STEP'] = anchored_int(sv, r'for\s*\(\s*i\s*=\s*3\s*;\s*i\s*<\s*2048\s*;\s*i\+\+\s*,\s*v\s*=\s*\(\s*v\s*\+\s*(\d+)\s*\)\s*&\s*0xff\s*\)', 'server probe step', 'iodined.c')
+    sc2 = re.findall(r'case\s+(\d+)\s*:\s*enc\s*=\s*&\s*(\w+)\s*;\s*user_switch_codec', sv)
+    if not sc2 or any(e not in ENC for _, e in sc2):
+        raise TranslatorError('translator: anchor server codec switch "case B: enc = &<codec>_ops; user_switch_codec" not found in iodined.c')
+    C['server_bits'] = [int(b) for b, _ in sc2]
+    C['server_bits_codec'] = [ENC[e] for _, e in sc2]
+    m = re.search(r"case\s+'R'\s*:\s*case\s+'r'\s*:\s*if\s*\(((?:\s*q->type\s*==\s*T_\w+\s*(?:\|\|)?)+)\)\s*\{\s*write_dns\s*\(\s*dns_fd\s*,\s*q\s*,\s*datap", sv)
+    if not m:
+        raise TranslatorError("translator: anchor 'Y' handler raw case (types served) not found in iodined.c")
+    C['y_raw_types'] = [T[t] for t in re.findall(r'T_\w+', m.group(1))]
+    m = re.search(r"case\s+'T'\s*:\s*case\s+'t'\s*:\s*if\s*\(((?:\s*q->type\s*==\s*T_\w+\s*(?:\|\|)?)+)\)\s*\{\s*write_dns\s*\(\s*dns_fd\s*,\s*q\s*,\s*datap", sv)
+    if not m:
+        raise TranslatorError("translator: anchor 'Y' handler Base32 case (types served) not found in iodined.c")
+    C['y_text_types'] = [T[t] for t in re.findall(r'T_\w+', m.group(1))]
+    return C
+
+
 def coq_list(xs):
     return '[' + '; '.join(str(x) for x in xs) + ']'
 
@@ -342,6 +483,13 @@ def generate(srcdir):
     except TranslatorError as e:
         c13_err = str(e)
 
+    # C11 anchors are local to C11 in the same way (Negotiate.v then fails to build)
+    c11_err = None
+    try:
+        C.update(c11_constants(srcdir))
+    except TranslatorError as e:
+        c11_err = str(e)
+
     # C19: login_calculate -- bytes copied from the password buffer, 32-bit words xored, bytes hashed
     login_c = strip_comments(read(srcdir, 'login.c'))
     C['LOGIN_COPY'] = anchored_int(login_c, r'login_calculate\s*\(.*?memcpy\s*\(\s*temp\s*,\s*pass\s*,\s*(\d+)\s*\)', 'login_calculate memcpy length', 'login.c')
@@ -364,18 +512,28 @@ def generate(srcdir):
     lines.append('')
     for k in sorted(C):
         v = C[k]
+        if isinstance(v, str):
+            continue
         if isinstance(v, list):
             lines.append('Definition src_%s : list N := %s.' % (k, coq_list(v)))
         else:
             lines.append('Definition src_%s : N := %d.' % (k, v))
+    for k in sorted(C):
+        v = C[k]
+        if isinstance(v, str) and v.startswith('LISTREF'):
+            lines.append('Definition src_%s : list (list N) := [%s].' % (k, '; '.join(v.split()[1:])))
     if c13_err:
         lines.append('(* C13 constants omitted: %s *)' % c13_err.replace('*)', '* )'))
     if c05_err:
         lines.append('(* C05 constants omitted: %s *)' % c05_err.replace('*)', '* )'))
+    if c11_err:
+        lines.append('(* C11 constants omitted: %s *)' % c11_err.replace('*)', '* )'))
     lines.append('')
     text = '\n'.join(lines)
     if c13_err:
         C['C13_ERROR'] = c13_err      # for checks/c13.py only; not a Coq constant
+    if c11_err:
+        C['C11_ERROR'] = c11_err      # for checks/c11.py only; not a Coq constant
     return text, C
 
 
